@@ -173,6 +173,11 @@ def build_script(ctx, case):
         name, db, text, names = unit_text(ctx, case)
         dbp = os.path.join(ctx.repo, db)
         s.raw("loaddb a " + dbp)
+        if case.get("asis") or ctx.rng("sinks", case["mseed"]).random() < 0.6:
+            # with every sink off the engine skips printing altogether, and with it USER_PRINT, the output of every block and the punch code:
+            # most units keep the string sinks on so that these paths see the hostile input too
+            s.raw("set a OutputStringOn 1")
+            s.raw("set a SelectedOutputStringOn 1")
         if name.startswith("ex") and name in examples.TABLE:
             for f in examples.TABLE[name][2]:
                 exp.setdefault("stage", []).append(os.path.join(ctx.repo, "phreeqc3-examples", f))
